@@ -450,7 +450,20 @@ func scenarioConcurrent(cw *cq.Writer, w *World, rng *rand.Rand, desc map[string
 	batches := make([][]BatchSpec, g)
 	for i := range batches {
 		for j := 0; j < per; j++ {
-			batches[i] = append(batches[i], w.GenBatch())
+			b := w.GenBatch()
+			// concurrent batches must be distinguishable in the writer's trace: every one names an id of its
+			// own that was never inserted (two pending batches with identical content cannot be told apart,
+			// which made the real-time check blame the wrong one — false alarm found by the thorough tier)
+			hasMarker := false
+			for _, op := range b.Ops {
+				if op.ID >= 1000000 {
+					hasMarker = true
+				}
+			}
+			if !hasMarker {
+				b.Ops = append(b.Ops, DocOp{Kind: "del", ID: 1000000 + b.Key})
+			}
+			batches[i] = append(batches[i], b)
 		}
 	}
 	seeds := make([]int64, g)
